@@ -129,6 +129,9 @@ class World:
         if self.cfg is None or self.cfg.pw is None:
             return {"alg": "none", "salt": 0, "saltlen": 0, "pt": ""}
         v = self.cfg.pw
+        if not isinstance(v, self.cinco.fields.DigestValue):
+            # (whatever is held instead of a digest is reported as such, not as a crash of the harness)
+            return {"alg": self.alg, "salt": -1, "saltlen": -1, "pt": "<held value is a %s, not a digest>" % type(v).__name__}
         pt = "<unknown>"
         for name, secret in SECRETS.items():
             raw = secret.encode() if isinstance(secret, str) else secret
@@ -142,12 +145,14 @@ class World:
             "store": [{"sv": self.abstract_sv(sv, pt), "key": k, "pt": list(pt)} for sv, k, pt in self.store],
             "chal": self.chal_state(),
             "onfile": self.on_file(),
+            "dflt": bool(getattr(self, "has_default", False)),
+            "nonce": len(self.draws),  # number of random draws (IVs, salts) so far
         }
 
-    def ensure_cfg(self, alg):
+    def ensure_cfg(self, alg, default=None):
         if self.cfg is None:
             schema = self.cinco.Schema()
-            schema.pw = self.cinco.ChallengeField(alg)
+            schema.pw = self.cinco.ChallengeField(alg) if default is None else self.cinco.ChallengeField(alg, default=default)
             self.schema = schema
             self.cfg = schema()
             self.alg = alg
@@ -227,6 +232,10 @@ class World:
                 self.store.append((sv1, held, pt))
                 self.store.append((sv2, held, pt))
                 return {"out": "ok", "sv": self.abstract_sv(sv1, pt), "sv2": self.abstract_sv(sv2, pt)}
+            if op == "BuildDefault":
+                self.has_default = True
+                self.ensure_cfg(ev["alg"], SECRETS[ev["p"]])
+                return {"out": "ok"}
             if op == "Assign":
                 self.ensure_cfg(ev["alg"])
                 secret = SECRETS[ev["p"]]
@@ -287,6 +296,8 @@ def normalise(edges, inits):
             "store": [{"sv": sv(e["sv"]), "key": e["key"], "pt": list(codec.seq(e["pt"]))} for e in codec.seq(s["store"])],
             "chal": s["chal"],
             "onfile": s.get("onfile", {"K1": "K1", "K2": "K2"}),
+            "dflt": bool(s.get("dflt", False)),
+            "nonce": s.get("nonce", 0),
         }
 
     for e in edges:
@@ -346,7 +357,9 @@ def driver(cinco, prop, seed, n_traces, length):
                     else:
                         ev = {"op": "LoadStored", "shape": rng.choice(shapes), "fm": rng.choice(["best", "xor", "aes"])}
                 else:
-                    if r < 0.35 or w.cfg is None:
+                    if w.cfg is None and rng.random() < 0.3:
+                        ev = {"op": "BuildDefault", "alg": alg, "p": rng.choice(["empty", "a", "colon"])}
+                    elif r < 0.35 or w.cfg is None:
                         name = "r%d_%d" % (t, len(mine))
                         kind = rng.random()
                         if kind < 0.7:
@@ -384,7 +397,7 @@ C08_INV = ["C08_ConcreteMethod", "C08_Inverse", "C08_FreshIV", "C08_WrongKey", "
 C09_INV = ["C09_Exact", "C09_SaltLen", "C09_HandWrittenHashed"]
 C09_PROP = ["C09_FreshSalt", "C09_Survives"]
 C08_OPS = ("Swap", "Encrypt", "EncryptPair", "Decrypt", "DecryptBad", "DecryptTruncated", "LoadStored")
-C09_OPS = ("Assign", "LoadPlain", "Challenge", "SaveLoad")
+C09_OPS = ("BuildDefault", "Assign", "LoadPlain", "Challenge", "SaveLoad")
 
 
 def write_cfg(path, maxops, invs=(), props=(), export=False):
